@@ -379,3 +379,21 @@ func c01CloseRace(x *X) {
 func init() {
 	register(&Scenario{Prop: "C01", Name: "c01/close-racing-responses", Quick: []Bound{{1, 0}}, Thorough: []Bound{{2, 0}}, Body: c01CloseRace, BudgetQ: 20})
 }
+
+// every combination of the I/O options of the two ends (server pipelining / direct I/O x client
+// pipelining / direct I/O): options that are harmless one at a time can share state when set
+// together.
+var comboModes = func() []modeT {
+	var ms []modeT
+	for i := 0; i < 16; i++ {
+		so := srvOpts{bufSize: 64, pipelining: i&1 != 0, directIO: i&2 != 0}
+		co := cliOpts{bufSize: 64, pipelining: i&4 != 0, directIO: i&8 != 0}
+		ms = append(ms, modeT{fmt.Sprintf("srv(pipe=%v,dio=%v)-cli(pipe=%v,dio=%v)", so.pipelining, so.directIO, co.pipelining, co.directIO), so, co})
+	}
+	return ms
+}()
+
+func init() {
+	register(&Scenario{Prop: "C01", Name: "c01/2callers-option-combinations", Quick: []Bound{{1, 0}}, Thorough: []Bound{{2, 0}}, Body: c01Body(2, comboModes), BudgetQ: 30})
+	register(&Scenario{Prop: "C01", Name: "c01/many-outstanding-option-combinations", Quick: []Bound{{0, 0}}, Thorough: []Bound{{1, 0}}, Body: c01Many(comboModes), MaxSteps: 200000, BudgetQ: 15, BudgetT: 200})
+}
